@@ -72,6 +72,7 @@ type runState struct {
 	concFails []string
 	hashes    []hashRecord
 	intSide   []*Term
+	randReads int
 	intSideChecked int
 }
 
